@@ -40,15 +40,52 @@ def check_type_enum(model: Model):
         raise AnalysisError(f"_Type members changed: {names}; the abstract type domain must be revisited")
 
 
+def cache_field(model: Model) -> str:
+    """Mangled name of the compiled-pattern cache field, located by role: the one instance field that the public
+    method `compile` assigns (its name is private and may change)."""
+    c = model.__dict__.get("_cache_field")
+    if c is None:
+        c = "_Pregex__compiled"
+        comp = model.pregex.methods.get("compile")
+        names = []
+        if comp is not None:
+            for n in ast.walk(comp.node):
+                if isinstance(n, ast.Attribute) and isinstance(n.ctx, ast.Store) and isinstance(n.value, ast.Name) and n.value.id == "self":
+                    names.append(mangle(n.attr, "Pregex"))
+        if len(set(names)) == 1:
+            c = names[0]
+        model.__dict__["_cache_field"] = c
+    return c
+
+
 def make_operand(model: Model, text: str, tname: str, repeatable: bool = True, cls=None, tag=None) -> Obj:
     ci = cls or model.pregex
     o = Obj(ci)
     o.fields["_Pregex__pattern"] = text
     o.fields["_Pregex__type"] = tval(model, tname)
     o.fields["_Pregex__repeatable"] = repeatable
-    o.fields["_Pregex__compiled"] = None
+    o.fields[cache_field(model)] = None
     o.tag = tag or f"{tname}:{text!r}"
     return o
+
+
+def tag_feasible(tag: str, text: str) -> bool:
+    """Necessary condition for a type tag on a concrete text (a tag the classifier could not possibly give is not
+    explored: builders may rely on the shape a tag implies, e.g. a Group-typed text being parenthesised).  Generous on
+    purpose; whether the classifier gives the RIGHT tag is C02 R-COMPOSE / C08 R-GROUP-REAL / C09 R-REPEAT-LIT."""
+    if tag == "Group":
+        return len(text) >= 2 and text[0] == "(" and text[-1] == ")"
+    if tag == "Class":
+        return text[:1] == "[" or text == "." or (len(text) == 2 and text[0] == "\\")
+    if tag == "Token":
+        return len(text) == 1 or (text[:1] == "\\" and len(text) <= 10)
+    if tag == "Alternation":
+        return "|" in text
+    if tag == "Quantifier":
+        return text[-1:] in "?*+}"
+    if tag == "Assertion":
+        return any(k in text for k in ("^", "$", "\\A", "\\Z", "\\b", "\\B", "(?=", "(?!", "(?<"))
+    return True
 
 
 class PregexHooks(Hooks):
@@ -80,7 +117,9 @@ class PregexHooks(Hooks):
                     return (tval(self.model, r[0]), r[1])
             if not self.fork_unknown:
                 raise Incomplete(f"type of constructed text {text!r} needed but unknown")
-            opts = [(n, True) for n in TYPE_NAMES if n != "Empty"] + [("Assertion", False)]
+            opts = [(n, True) for n in TYPE_NAMES if n != "Empty" and tag_feasible(n, text)]
+            if tag_feasible("Assertion", text):
+                opts.append(("Assertion", False))
             pair = Lazy([(tval(self.model, n), rep) for n, rep in opts], f"infer_type({text!r})")
             return _LazyPair(pair)
         return NotImplemented
